@@ -5,8 +5,9 @@ Core Lean only.
 * every experiment has its own folder `<out>/<name>/` (path classes of Model/Resume.lean, one copy per experiment);
   `.params` is one file for the whole invocation;
 * a fresh run removes the lock files of *every* experiment (remove_previous_run_locks), saves `.params` once, then
-  processes the experiments one after the other: for each, everything `stages` lists after the `.params` stage, in the
-  experiment's own folder; a resumed invocation loads and re-saves `.params`, then goes through **every** experiment
+  processes the experiments one after the other: for each, everything `stages` lists after the `.params` stage and the
+  reference stage (`refStage`: once per invocation, in the top-level folder — a plain-gzip reference is **not** part of
+  this model of several experiments, `Cfg.gzRef` is ignored here), in the experiment's own folder; a resumed invocation loads and re-saves `.params`, then goes through **every** experiment
   again with `--resume` semantics, from whatever its folder holds;
 * what the experiments share besides `.params` is the state of the process: the alignment counter.  `withCarried` sets
   `Cfg.carried` of every experiment: an earlier experiment of the invocation has unaligned reads (the counter is not
@@ -52,7 +53,7 @@ def runExps (v : Variant) (resume : Bool) : List Exp → MFS → MRes
   | [], m => ⟨[], m, true⟩
   | (i, cfg, ord) :: rest, m =>
       let fs := m.view i
-      let r := runStages (stages v cfg ord resume (resume && fs.has .lock)).tail fs
+      let r := runStages ((stages v cfg ord resume (resume && fs.has .lock)).drop 2) fs
       let evs := r.evs.map (fun e => (i, e))
       let m' := mApplyAll m evs
       if r.ok then
